@@ -360,6 +360,8 @@ func TestC17(t *testing.T) {
 		eval: evalC17, tests: true,
 		cfg: func(rt *rapid.T, avoid map[string]bool) (dsl.GenCfg, int, dsl.ValCfg, bool) {
 			c, _, v, _ := defaultXCfg(rt, avoid)
+			c.MoreEmpty = rapid.Bool().Draw(rt, "more_empty")
+			c.WantMatch = rapid.Bool().Draw(rt, "want_match")
 			return c, 1, v, false
 		},
 		nontrivial: func(k xCase) bool {
